@@ -68,7 +68,9 @@ func VerifC20Compact(e tlmetadata.Event) (tlmetadata.Event, bool, error) {
 	return e, keep, err
 }
 
-func VerifC20EqualWithoutVersion(a, b tlmetadata.Event) bool { return equalWithoutVersionJournalEvent(a, b) }
+func VerifC20EqualWithoutVersion(a, b tlmetadata.Event) bool {
+	return equalWithoutVersionJournalEvent(a, b)
+}
 
 type VerifC20Storage struct {
 	MetricsByID   []*format.MetricMetaValue // sorted by id
